@@ -99,7 +99,7 @@ CHECKS = {
    design="3.C17"),
  "C20": dict(level="fault_enumeration", engine="E3",
    technique="exhaustive fault enumeration: every truncation, every offset x byte alphabet, every numeric token / header integer x extreme values, line / chunk swaps, duplications, removals and two-file splices of one valid file per loader, executed on the real loaders (by file object, by path, by path with explicit type) in resource-limited processes",
-   text="For one small valid file per native loader (binary and ascii stl / ply, off, obj, glb, gltf, 3mf, dae, zae, 3dxml, xyz, dxf, svg, binvox, xaml, zip deflated and stored, tar.gz) the complete single-fault neighbourhood is enumerated (every truncation length; every byte offset x 11-value alphabet + 2 bit flips; every numeric token and aligned header integer x extreme values; swaps / duplications / removals of lines or aligned chunks; splices with another valid file) and every mutated byte string is loaded in a worker with a 2 GiB address-space cap, a 4 s soft / 20 s hard time limit and a file-descriptor table comparison taken while the result (or exception) is still referenced. Outcome classes other than return / ordinary exception, CPU beyond max(2 s, 2 ms per byte), peak memory growth beyond 256 MiB and a self-opened file left open are violations.",
+   text="For one small valid file per native loader (binary and ascii stl / ply, off, obj, glb, gltf, 3mf, dae, zae, 3dxml, xyz, dxf, svg, binvox, xaml, zip deflated and stored, tar.gz) the complete single-fault neighbourhood is enumerated (every truncation length; every byte offset x 11-value alphabet + 2 bit flips; every numeric token and aligned header integer x extreme values; swaps / duplications / removals of lines or aligned chunks; splices with another valid file) and every mutated byte string is loaded in a worker with a 2 GiB address-space cap, a 4 s soft / 20 s hard time limit and a file-descriptor table comparison taken while the result (or exception) is still referenced. Outcome classes other than return / ordinary exception, CPU beyond max(2 s, 2 ms per byte), peak memory growth beyond 256 MiB and a self-opened file left open are violations. Growth: every contiguous range of lines / 16-byte chunks of a seed is repeated in place k and 4k times (48 KiB / 192 KiB quick, 128 / 512 KiB thorough); the CPU time at 4k may not exceed 10x the time at k (measured three times before it is reported).",
    note="Seeds above 1500 bytes (dxf, dae, zae) are enumerated on a fixed grid in the quick tier (every 4th truncation, every 16th byte offset); thorough uses every offset, pairs of byte faults on a stride-7 grid and all of load / load_mesh / load_scene. meshio / gmsh backed formats are third-party parsers and are not enumerated. A file object handed in by the caller is not required to be closed.",
    design="3.C20"),
 }
